@@ -72,6 +72,32 @@ def bulk_download_stage(chk, quick, pid):
         chk.case(("bulk_alt_history", len(heights)), nontrivial=True)
     finally:
         node.close()
+    # ... and pushed, not requested: a block with a wrong id at a checkpointed height announced by a peer (in_response_to = 0) -- on a quiet
+    # connection, and while the node's own request for blocks to that very peer is still unanswered
+    for situation in ("quiet connection", "our GetBlocks to that peer is outstanding", "the peer advertised the block first and we asked for it"):
+        node = fakenet.Node(CoinState.empty().add_block_no_validation(g), g, clock=fakenet.Clock(now))
+        try:
+            node.connect("p", host="10.0.0.2", port=5000, direction="OUTGOING", their_port=2412, nonce=55)
+            node.take_sent("p")
+            H = heights[0]
+            b = alt[0]
+            if situation.startswith("our GetBlocks"):
+                cm = node.local.chain_manager
+                for _ in range(3):
+                    cm.step((now // 60 + 1) * 60)
+                node.pump_writes()
+                node.take_sent("p")
+            elif situation.startswith("the peer advertised"):
+                node.deliver("p", netmsg.frame(netmsg.body(M.InventoryMessage([M.InventoryItem(M.DATA_BLOCK, b.hash())]), 7001, 0, ts=now)))
+                node.take_sent("p")
+            node.use_store()
+            node.deliver("p", netmsg.frame(netmsg.body(M.DataMessage(M.DATA_BLOCK, b), 7002, 0, ts=now)))
+            ok_ = b.hash() not in node.chain().block_by_hash
+            facts.append({"clause": "C18:announced_block_with_a_wrong_id_at_a_checkpointed_height_accepted", "holds": ok_,
+                          "what": "height %d, %s" % (H, situation)})
+            chk.case(("pushed_wrong_id", situation), nontrivial=True)
+        finally:
+            node.close()
     v, r = tracecheck.run("TraceFacts", facts, {}, ids=[1], workers=1, timeout=300)
     chk.traces_validated += 1
     chk.states += r.distinct
